@@ -368,7 +368,7 @@ def scen_spec(spec, obs, sc):
 def payload(item, clause, detail):
     from mc import render
     spec = to_spec(item)
-    return {"item": item, "detail": detail, "spec": spec, "tjp": render.render(spec)}
+    return {"item": item, "detail": detail, "spec": spec, "tjp": render.render(spec), "mode": item.get("mode", "rebuilt")}
 
 
 def sample(item):
@@ -377,11 +377,16 @@ def sample(item):
 
 
 def sweep(ctx, st, prop):
+    """every member of the universe with the extensions rebuilt from the tree's .pyx, and every member with <= 1 toggle
+    (thorough: <= 2) once more on the pure-Python fallbacks (the item carries the mode for the replay file)"""
     from mc.run import explore
     explore(ctx, universe(ctx.tier), f"mc.props.wide:eval_{prop.lower()}", st, payload=payload, sample_of=sample)
+    k = 1 if ctx.tier == "quick" else 2
+    pure = [dict(it, mode="blocked") for it in universe(ctx.tier) if len(it["t"]) <= k]
+    explore(ctx, pure, f"mc.props.wide:eval_{prop.lower()}", st, mode="blocked", payload=payload, sample_of=sample)
 
 
-NOTE = ("'wide' family: 2 ten-task base projects (3-level task and resource trees, team, alternative, milestone, container edges, "
+NOTE = ("'wide' family (all members with the compiled extensions, the members with <= 1 toggle - thorough <= 2 - again on the pure-Python fallbacks): 2 ten-task base projects (3-level task and resource trees, team, alternative, milestone, container edges, "
         "window across the year boundary) x every subset of <= 2 (thorough: <= 3) of 26 feature toggles (resolution 15/10 min, efficiency "
         "0.3/1.5, weekend-only resource, leaves, vacation, resource/group/task limits, gaps, priorities, ALAP task, container pin, third "
         "scenario, sub-slot efforts, month boundary, time zone, split hours, multi-week effort, fifth resource, 5-level nesting, a window across two daylight-saving switches with zoned seven-day resources, reversed declaration order, a five-week project vacation, a Sunday-to-Thursday night shift)")
